@@ -119,7 +119,7 @@ def cut(fn, *args, expect=(), **kwargs):
     Returns the result; an exception of a type listed in `expect` comes back as
     Raised(exc); a trace-specification violation raised from the database boundary, the
     step budget being exceeded or any other exception is a violation."""
-    from vt.monitor.db import TraceViolation
+    from vt.monitor.db import InjectedWriteFailure, TraceViolation
 
     saved = _steps["n"]
     _steps["n"] = 0
@@ -138,6 +138,9 @@ def cut(fn, *args, expect=(), **kwargs):
         raise Violation(tv.monitor, tv.detail)
     except expect as e:  # noqa
         return Raised(e)
+    except InjectedWriteFailure:
+        # the harness' own injected fault travels up to whoever injected it
+        raise
     except Exception as e:
         raise Violation(
             "unexpected-exception",
